@@ -13,6 +13,7 @@ require (
 require (
 	github.com/golang/protobuf v1.5.4 // indirect
 	golang.org/x/net v0.22.0 // indirect
+	golang.org/x/sync v0.6.0 // indirect
 	golang.org/x/sys v0.18.0 // indirect
 	golang.org/x/text v0.14.0 // indirect
 )
